@@ -73,7 +73,7 @@ def _schedules(tier):
         dur2 = [(1, 1), (2, 4), (3, 3)]
     for t in TYPES:
         for d in dur1:
-            ths = [1] + ([2] if d % 2 == 0 and d >= 2 else [])
+            ths = [1] + ([2] if d % 2 == 0 and d >= 2 and (tier != "quick" or t in ("BURNIN", "POSTERIOR")) else [])
             for th in ths:
                 out.append([[t, d, th]])
     for t1, t2 in itertools.product(TYPES, TYPES):
@@ -165,7 +165,7 @@ def tracer_cases(tier, seed):
                 nk, nq = kq_l[n % len(kq_l)]
                 s = seeds[(n // len(kq_l)) % len(seeds)]
                 pert = [n % chains] if (init == "multi" and chains > 1) else []
-                cases.append(dict(kind="tracer", seed=s, chains=chains, nk=nk, nq=nq, schedule=sch, chunk=chunk, jitter=jitter, init=init, repeat=(n % 4 == 0), perturb=pert))
+                cases.append(dict(kind="tracer", seed=s, chains=chains, nk=nk, nq=nq, schedule=sch, chunk=chunk, jitter=jitter, init=init, repeat=(n % (8 if tier == "quick" else 4) == 0), perturb=pert))
                 n += 1
             pair += 1
     refs = [[["FAST", 2, 1], ["POSTERIOR", 4, 2]], [["SLOW", 2, 1], ["BURNIN", 2, 1], ["POSTERIOR", 2, 1]]]
@@ -193,8 +193,13 @@ def real_cases(tier, seed):
         chains_l = [2, 4]
         sets = REAL_SETS
     n = 0
-    for (name, _), sch, chains in itertools.product(sets, scheds, chains_l):
-        for jitter, init in itertools.product(["det", "key"], ["replicated", "multi"]):
+    for si, ((name, _), sch, chains) in enumerate(itertools.product(sets, scheds, chains_l)):
+        combos = list(itertools.product(["det", "key"], ["replicated", "multi"]))
+        if tier == "quick":
+            # two of the four (jitter, init) points per kernel set, Latin: every jitter
+            # kind and every init form occurs with every kernel set
+            combos = [combos[0], combos[3]] if si % 2 == 0 else [combos[1], combos[2]]
+        for jitter, init in combos:
             s = seeds[n % len(seeds)]
             n += 1
             pert = list(range(chains)) if init == "multi" else []
